@@ -4,6 +4,7 @@ from ..defuse import du_of, walk, peel, callee_name, fmt
 from ..conds import lits_of, success_dominates
 from ..callgraph import cg_of
 from ..effects import effects_of, REPLICA_STATE
+from ..roles import roles_of
 from ..common import arg_term, contains_call, field_path, assigns_of_return
 from .. import tables
 
@@ -22,6 +23,7 @@ GUARDED_OPS = ("melda::Melda::reload", "melda::Melda::refresh", "melda::Melda::r
 
 
 def run(facts, res):
+    R = roles_of(facts)
     cg = cg_of(facts)
     eff = effects_of(facts)
     res.rule("G1", "reload / refresh / reload_until mutate replica state only under has_staging() == false")
@@ -50,6 +52,11 @@ def run(facts, res):
                     ok = True
                     how = "under !has_staging()"
                     guard_blocks.append(l.block)
+                if l.kind == "variant" and l.variants and l.variants <= {"Continue", "Ok"}:
+                    pt = peel(l.term)
+                    if pt[0] == "call" and pt[4] is not None and _is_staging_guard(facts, facts.body(pt[4].target())):
+                        ok = True
+                        how = "behind %s()?" % pt[4].name
             if not ok and any(t.path in GUARDED_OPS for t in s.targets) and s.term.dest is not None:
                 ok = True
                 how = "delegates to " + s.targets[0].path
@@ -101,7 +108,7 @@ def run(facts, res):
             res.instance("G2", "RevisionTree::commit clears the tree flag and every entry flag (writes %s)" % sorted(e), tcb.loc())
             if not ok or ("revisiontree::RevisionTreeEntry", "staging") not in eff.of(tcb.path):
                 res.violation("G2", "RevisionTree::commit|flags", "RevisionTree::commit does not clear both the tree and the entry staging flags", tcb.loc())
-        pk = facts.body("datastorage::DataStorage::pack")
+        pk = R.body("pack_writer")
         if pk is not None:
             ok = any(t.callee is not None and t.callee.name == "clear" and field_path(arg_term(pk, t, 0))[0][:1] == ["stage"] for _, t in pk.calls())
             res.instance("G2", "the pack writer clears the data stage: %s" % ok, pk.loc())
@@ -231,7 +238,7 @@ def run(facts, res):
     # G4b: the consumers of record lists (whose order comes from a hash map) insert every record unconditionally:
     # no insertion may depend on what earlier records already put into the tree
     TREE_QUERIES = {"get_revisions", "get_leafs", "get_winner", "get_parent", "has_staging"}
-    for fn in ("melda::Melda::replay_stage", "melda::Melda::apply_delta"):
+    for fn in ("melda::Melda::replay_stage", R.path("applier")):
         fb = facts.body(fn)
         if fb is None:
             continue
@@ -338,3 +345,17 @@ def run(facts, res):
 def thorough(res):
     from .. import engine
     engine.sensitivity("C15", res)
+
+
+def _is_staging_guard(facts, g):
+    """g is a Melda method that returns Ok only when has_staging() is false"""
+    if g is None or g.impl_adt != "melda::Melda" or g.kind == "closure":
+        return False
+    oks = [ob for ob, _ in assigns_of_return(g, "Ok")]
+    if not oks:
+        return False
+    for ob in oks:
+        if not any(l.kind == "call" and callee_name(l.term) == "has_staging" and l.truth is False and l.term[4].impl_self == "melda::Melda"
+                   for l in lits_of(g, ob, facts)):
+            return False
+    return True
